@@ -18,7 +18,9 @@ P = {
  "C05": ("LibTrace", "TLA+ spec (RFC6287: Msg layout, EffCfg from the suite name; Lib: GenOCRAExpect) + TLC trace validation of recorded GenerateOCRA calls; message observed byte for byte through the HMAC hook", "5/C05"),
  "C06": ("LibTrace", "TLA+ spec (Lib: ValOCRAExpect = iff with generation) + TLC trace validation of recorded ValidateOCRA calls (edits, same-value strings, nearest admissible neighbours)", "5/C06"),
  "C08": ("LibTrace", "TLA+ spec with stream state (usedIv: consumed intervals of the substituted crypto/rand.Reader) + TLC trace validation of recorded RandomSecret histories, sequential and concurrent", "5/C08"),
+ "C09": ("Taint", "TLA+ information-flow transition system (spec/Taint.tla) instantiated with the SSA data-flow graph re-extracted from the current tree (native, js/wasm, REST); TLC computes the taint fixpoint and checks NoLeak + non-vacuity", "5/C09"),
  "C10": ("LibTrace", "TLA+ spec: reply relation total over values/errors only (Returned) for every exported operation + TLC trace validation of calls with extreme arguments under recover() and a watchdog", "5/C10"),
+ "C11": ("Pools", "TLA+ model of the pooled-buffer protocol (spec/Pools.tla) model-checked exhaustively (2-3 callers x adversary x GC); TLC-generated behaviours replayed on the real code through scheduler gates and validated by PoolsTrace; free-running race-detector tier validated against the sequential specification", "5/C11"),
  "C12": ("LibTrace", "TLA+ frame conditions (FrameFails: argument memory incl. spare capacity, defaults, registry, retained results) + TLC trace validation of recorded memory snapshots", "5/C12"),
  "C14": ("LibTrace", "TLA+ spec (RFC6287: SuiteUsable, Admissible) + TLC trace validation of the length grid 0..140 per field and the usability grid through Validate/Generate/ValidateOCRA", "5/C14"),
  "C15": ("LibTrace", "TLA+ spec (RFC6287: Reading = independent grammar reading of suite strings) + TLC trace validation of NewRawSuite/ListSuites/IsKnownSuite/SuiteConfigFromRaws over advertised names, grammar enumeration and malformed classes", "5/C15"),
@@ -61,6 +63,10 @@ def main():
             "add_only": True,
         },
         "engines": [
+            {"name": "Pools", "path": "spec/Pools.tla", "serves_properties": ["C11"],
+             "kind_free_text": "TLA+ model of Get/fill/HMAC/format/deferred Put with adversary and GC; PoolsGen generates behaviours (tlc -simulate), harness/gate.go replays them on the real code under GOMAXPROCS(1) through the verif hook's gates, PoolsTrace validates the recorded events (unlogged Get/Put inferred by TLC)"},
+            {"name": "Taint", "path": "spec/Taint.tla", "serves_properties": ["C09"],
+             "kind_free_text": "TLA+ taint-propagation system over a program graph; constants come from harness/ssagraph (x/tools go/ssa + CHA call graph) run on the current tree"},
             {"name": "LibTrace", "path": "spec/LibTrace.tla", "serves_properties": [p for p in ids if p in P and P[p][0] == "LibTrace"],
              "kind_free_text": "explicit TLA+ specification of package otp (spec/Lib.tla and data modules) checked by TLC; conformance by trace validation of events recorded from the real code (harness/), small-scope exhaustive model configurations (*_MC.cfg)"},
         ],
@@ -77,7 +83,10 @@ LEVEL_DEFAULT = ("Explicit TLA+ specification checked by TLC: small-scope config
                  "enumerated from the property's own case analysis, so the universally quantified statement is sampled "
                  "at every boundary the case analysis has, not proved for all 2^64 counters.")
 LEVEL_TEXT = {}
-NOTES = {}
+NOTES = {
+ "C09": "Model checking of an extracted abstraction: the verdict is TLC's (NoLeak over the taint fixpoint), the binding is the extractor, re-run on the current tree for three build configurations. Trusted: the SSA builder and CHA call graph of x/tools v0.29, the extractor's transfer rules for calls outside the analysed packages (result tainted iff an argument is; copy/json.Unmarshal/hex.Decode/PutUint64/io.ReadFull/Write taint an argument), the list of variable-time primitives; implicit (control) flows and hardware timing are out of scope. Non-vacuity is checked: every constant-time comparison site must be reached by HMAC-derived data on one operand and submitted text on the other.",
+ "C11": "Interleavings are explored exhaustively on the model and at the granularity of the hook's gates (constructor, Write, Sum, return) on the real code, under GOMAXPROCS(1); finer-grained races are left to the race-detector tier, which samples. Trusted: TLC, the Go scheduler obeying channel handshakes, sync.Pool semantics as modelled (Get returns any pooled item or a new one; items may be dropped at any time), buffer identity by address.",
+}
 NA = {}
 
 if __name__ == "__main__":
